@@ -6,7 +6,7 @@ import ast
 from dataclasses import dataclass
 
 from ..core import AnalysisError, Check, norm, strip_docstring, walk_no_nested
-from ..interp import PathInterp
+from ..interp import PathInterp, Sym, SymInterp
 from ..variants import Variant
 
 MOD = "mca.py"
@@ -154,7 +154,7 @@ class C18(Check):
               "evaluations are the same call with the same state / options; they may differ only through the perturbed model value",
         "M3": "sequential and parallel execution use the same worker with the same arguments; results are keyed by the scanned parameter",
     }
-    floors = {"M1": 4, "M2": 6, "M3": 2, "M4": 3}
+    floors = {"M1": 4, "M2": 9, "M3": 2, "M4": 3}
     decided = [
         "every routine leaves the model's parameter and initial values as it found them (sequential execution)",
         "coefficients are central difference quotients with relative displacement; scaled by value/flux at the unperturbed state",
@@ -199,115 +199,183 @@ class C18(Check):
                       and norm(c.func.value) == "model" and c.func.attr not in QUERIES)
             self.holds("M1", MOD, q, "restored-on-exit", fn, f"{n_w} model write(s); all restored from saved values on {len(out.returns)} exit state(s)")
 
+    # ------------------------------------------------------------------
+    def coefficients(self, fn):
+        """Every coefficient a routine produces, per path, as (condition list, label, expression text, events) - from path summaries in
+        which each evaluation of the model is tagged with the number of model updates made before it (AT(k, call))."""
+        class I(SymInterp):
+            loop_unroll = 1
+            epochs = True
+
+        out = I().run_function(fn, Sym())
+        res = []
+        for st, _ in out.returns:
+            stores = [e for e in st.events if e[0] == "store" and e[1].startswith("elasticities[")]
+            if stores:
+                res.append((st, "elasticity", stores[-1][2]))
+                continue
+            rets = [e[1] for e in st.events if e[0] == "return"]
+            if rets and fn.name.endswith("_worker"):
+                try:
+                    t = ast.parse(rets[-1], mode="eval").body
+                except SyntaxError:
+                    continue
+                if isinstance(t, ast.Tuple):
+                    for i, el in enumerate(t.elts):
+                        res.append((st, ("concentration", "flux")[i] if i < 2 else f"#{i}", norm(el)))
+        return res
+
     def m2(self, fn) -> None:
         import sympy
 
         q = fn.name
-        U, L, d, x = sympy.symbols("U L d x")
-        body = list(walk_no_nested(fn))
-        quotients = [s for s in body if isinstance(s, ast.Assign) and isinstance(s.value, ast.BinOp) and isinstance(s.value.op, ast.Div)
-                     and "upper" in norm(s.value) and "lower" in norm(s.value)]
-        if not quotients:
+        coefs = self.coefficients(fn)
+        if not coefs:
             raise AnalysisError(f"{q}: no difference quotient found")
-
-        def conv(e):
-            t = norm(e)
-            if t == "displacement":
-                return d
-            if t == "old":
-                return x
-            if isinstance(e, (ast.Name, ast.Attribute, ast.Subscript)) and t.startswith("upper"):
-                return U
-            if isinstance(e, (ast.Name, ast.Attribute, ast.Subscript)) and t.startswith("lower"):
-                return L
-            if isinstance(e, ast.Constant) and isinstance(e.value, (int, float)):
-                return sympy.nsimplify(e.value)
-            if isinstance(e, ast.BinOp):
-                a, b = conv(e.left), conv(e.right)
-                return {ast.Add: a + b, ast.Sub: a - b, ast.Mult: a * b, ast.Div: a / b}[type(e.op)]
-            if isinstance(e, ast.UnaryOp) and isinstance(e.op, ast.USub):
-                return -conv(e.operand)
-            raise AnalysisError(f"{q}: `{t}` not interpretable in the quotient")
-
-        for s in quotients:
-            cons = f"quotient {norm(s.targets[0])}"
-            try:
-                got = conv(s.value)
-            except (AnalysisError, KeyError) as e:
-                self.undecided_ob("M2", MOD, q, cons, s, str(e))
+        d, x = sympy.symbols("d x")
+        anchor = [s_ for s_ in walk_no_nested(fn) if isinstance(s_, ast.Assign) and isinstance(s_.value, ast.BinOp) and isinstance(s_.value.op, ast.Div)]
+        anchor = anchor[0] if anchor else fn
+        verdicts: dict[str, list[str]] = {"quotient": [], "perturbations": [], "scaling": [], "same": []}
+        seen_scaled = seen_plain = False
+        for st, label, txt in coefs:
+            calls = [e[1] for e in st.events if e[0] == "call"]
+            # the perturbed value: `<OLD> * (1 + displacement)` somewhere on the path
+            olds = set()
+            for src in calls + [txt]:
+                for n in ast.walk(ast.parse(src, mode="eval")):
+                    if isinstance(n, ast.BinOp) and isinstance(n.op, ast.Mult) and isinstance(n.right, ast.BinOp) and norm(n.right) in ("1 + displacement", "1 - displacement"):
+                        olds.add(norm(n.left))
+            if len(olds) != 1:
+                verdicts["perturbations"].append(f"{label}: perturbed values {sorted(olds)}")
                 continue
-            # upper/lower must use the same accessor
-            ups = sorted({norm(n) for n in ast.walk(s.value) if isinstance(n, (ast.Attribute, ast.Subscript, ast.Name)) and norm(n).startswith("upper")}, key=len)
-            los = sorted({norm(n) for n in ast.walk(s.value) if isinstance(n, (ast.Attribute, ast.Subscript, ast.Name)) and norm(n).startswith("lower")}, key=len)
-            same_access = ups[-1].replace("upper", "", 1) == los[-1].replace("lower", "", 1)
-            if sympy.simplify(got - (U - L) / (2 * d * x)) == 0 and same_access:
-                self.holds("M2", MOD, q, cons, s, f"`{norm(s.value)}` == (upper - lower) / (2*displacement*old)")
+            OLD = olds.pop()
+
+            def state_at(k: int) -> str:
+                """model state when the k-th statement-level call has been made: U / L / B"""
+                role = "B"
+                for c in calls[:k]:
+                    if c.startswith(("model.update_parameters(", "model.update_parameter(")):
+                        if f"{OLD} * (1 + displacement)" in c:
+                            role = "U"
+                        elif f"{OLD} * (1 - displacement)" in c:
+                            role = "L"
+                        elif f": {OLD}}}" in c or c.endswith(f", {OLD})"):
+                            role = "B"
+                        else:
+                            role = "?"
+                return role
+
+            atoms: dict[str, tuple] = {}
+
+            def atom(e):
+                """(symbol) for `AT(k, evaluation)<accessor>`; None if e is not such a chain."""
+                acc = []
+                cur = e
+                while True:
+                    if isinstance(cur, ast.Attribute):
+                        acc.append("." + cur.attr)
+                        cur = cur.value
+                    elif isinstance(cur, ast.Subscript):
+                        acc.append(f"[{norm(cur.slice)}]")
+                        cur = cur.value
+                    else:
+                        break
+                if isinstance(cur, ast.Call) and norm(cur.func) == "AT" and len(cur.args) == 2 and isinstance(cur.args[1], ast.Call):
+                    inner = norm(cur.args[1])
+                    if not any(w in inner for w in ("get_fluxes", "steady_state", "get_right_hand_side", "get_args")):
+                        return None
+                    k = cur.args[0].value
+                    role = "U" if f"{OLD} * (1 + displacement)" in inner else "L" if f"{OLD} * (1 - displacement)" in inner else state_at(k)
+                    accessor = "".join(reversed(acc))
+                    # the call with its perturbation removed: what upper / lower / baseline must share
+                    base = inner.replace(f" | {{{self._key(inner, OLD)}: {OLD} * (1 + displacement)}}", "").replace(f" | {{{self._key(inner, OLD)}: {OLD} * (1 - displacement)}}", "")
+                    name = f"{role}{len([1 for v in atoms.values() if v[0] == role and v[1] != accessor and False])}"
+                    sym = sympy.Symbol(f"{role}_{abs(hash(accessor)) % 9973}")
+                    atoms[str(sym)] = (role, accessor, base, k)
+                    return sym
+                return None
+
+            def cv(e):
+                a_ = atom(e)
+                if a_ is not None:
+                    return a_
+                t = norm(e)
+                if t == "displacement":
+                    return d
+                if t == OLD:
+                    return x
+                if isinstance(e, ast.Constant) and isinstance(e.value, (int, float)):
+                    return sympy.nsimplify(e.value)
+                if isinstance(e, ast.BinOp) and type(e.op) in (ast.Add, ast.Sub, ast.Mult, ast.Div):
+                    l_, r_ = cv(e.left), cv(e.right)
+                    return {ast.Add: l_ + r_, ast.Sub: l_ - r_, ast.Mult: l_ * r_, ast.Div: l_ / r_}[type(e.op)]
+                if isinstance(e, ast.UnaryOp) and isinstance(e.op, ast.USub):
+                    return -cv(e.operand)
+                raise AnalysisError(f"`{t[:60]}` not interpretable in the coefficient")
+
+            try:
+                got = cv(ast.parse(txt, mode="eval").body)
+            except AnalysisError as e_:
+                verdicts["quotient"].append(f"{label}: {e_}")
+                continue
+            roles = {v[0] for v in atoms.values()}
+            accs = {v[1] for v in atoms.values()}
+            scaled = any(c == "normalized" and p_ for c, p_ in st.conds)
+            if "?" in roles or not {"U", "L"} <= roles:
+                verdicts["perturbations"].append(f"{label}: evaluations at states {sorted(roles)} (need one at old*(1+d) and one at old*(1-d))")
+                continue
+            if len(accs) != 1:
+                verdicts["quotient"].append(f"{label}: mixes {sorted(accs)} of the evaluations")
+                continue
+            acc = accs.pop()
+            h = abs(hash(acc)) % 9973
+            U, L, B = sympy.Symbol(f"U_{h}"), sympy.Symbol(f"L_{h}"), sympy.Symbol(f"B_{h}")
+            plain = (U - L) / (2 * d * x)
+            if scaled:
+                seen_scaled = True
+                if sympy.simplify(got - plain * x / B) != 0:
+                    if sympy.simplify(got.subs(B, 1) - plain * x) == 0 or "B" not in roles:
+                        verdicts["scaling"].append(f"{label}: `{txt[:80]}` is not coef * old / f(unperturbed)")
+                    else:
+                        verdicts["quotient"].append(f"{label}: `{txt[:80]}`")
             else:
-                self.violated("M2", MOD, q, cons, s, f"`{norm(s.value)}` is not the central difference quotient (upper - lower) / (2*displacement*old)",
-                              witness="for v = k*x the unscaled elasticity d v/d x is reported as -k, k/2 or 2k instead of k")
-        # perturbation values: the evaluation assigned to `upper` uses old*(1+d), `lower` old*(1-d)
-        perts = {}
-        last = None
-        for s in strip_docstring(fn.body) if not any(isinstance(b, ast.For) for b in fn.body) else \
-                [b for l in fn.body if isinstance(l, ast.For) for b in l.body]:
-            for n in ast.walk(s):
-                if isinstance(n, ast.BinOp) and isinstance(n.op, ast.Mult) and norm(n.left) == "old" and isinstance(n.right, ast.BinOp) \
-                        and norm(n.right.left) == "1" and norm(n.right.right) == "displacement":
-                    last = "+" if isinstance(n.right.op, ast.Add) else "-" if isinstance(n.right.op, ast.Sub) else "?"
-            if isinstance(s, ast.Assign) and norm(s.targets[0]) in ("upper", "lower") and last:
-                perts[norm(s.targets[0])] = last
-        if perts == {"upper": "+", "lower": "-"}:
+                seen_plain = True
+                if sympy.simplify(got - plain) != 0:
+                    verdicts["quotient"].append(f"{label}: `{txt[:80]}`")
+            bases = {v[2] for v in atoms.values()}
+            if len(bases) != 1:
+                verdicts["same"].append(f"{label}: evaluations differ beyond the perturbation: {sorted(b_[:70] for b_ in bases)}")
+        if not verdicts["quotient"] and (seen_plain or seen_scaled):
+            self.holds("M2", MOD, q, "quotient", anchor, "every coefficient == (upper - lower) / (2*displacement*old)")
+        else:
+            self.violated("M2", MOD, q, "quotient", anchor, "; ".join(verdicts["quotient"][:2]) or "no coefficient recognised" + " is not the central difference quotient (upper - lower) / (2*displacement*old)",
+                          witness="for v = k*x the unscaled elasticity d v/d x is reported as -k, k/2 or 2k instead of k")
+        if not verdicts["perturbations"]:
             self.holds("M2", MOD, q, "perturbations", fn, "upper evaluated at old*(1+displacement), lower at old*(1-displacement)")
         else:
-            self.violated("M2", MOD, q, "perturbations", fn, f"upper/lower are not evaluated at old*(1+d) / old*(1-d): {perts}",
+            self.violated("M2", MOD, q, "perturbations", fn, f"upper/lower are not evaluated at old*(1+d) / old*(1-d): {verdicts['perturbations'][0]}",
                           witness="the coefficient has the wrong sign or is zero")
-        # scaling
-        scal = [s for s in body if isinstance(s, ast.AugAssign) and isinstance(s.op, ast.Mult)]
-        if not scal:
-            self.violated("M2", MOD, q, "scaling", fn, "no scaled variant found")
-        for s in scal:
-            v = s.value
-            ok = isinstance(v, ast.BinOp) and isinstance(v.op, ast.Div) and norm(v.left) == "old"
-            guarded = any(isinstance(p, ast.If) and norm(p.test) == "normalized" and s in p.body for p in body if isinstance(p, ast.If))
-            cons = f"scaling {norm(s.target)}"
-            base = norm(v.right) if ok else ""
-            unperturbed = ("upper" not in base and "lower" not in base)
-            if ok and guarded and unperturbed:
-                self.holds("M2", MOD, q, cons, s, f"*= old / {base} under `normalized`")
-            else:
-                self.violated("M2", MOD, q, cons, s, f"`{norm(s)}` is not `coef *= old / f(unperturbed)` under the `normalized` flag")
+        if seen_scaled and not verdicts["scaling"]:
+            self.holds("M2", MOD, q, "scaling", fn, "scaled coefficient = coefficient * old / f(unperturbed), under `normalized`")
+        else:
+            self.violated("M2", MOD, q, "scaling", fn, verdicts["scaling"][0] if verdicts["scaling"] else "no scaled variant found")
+        cons4 = "same-evaluation-for-upper-lower-baseline"
+        if not verdicts["same"]:
+            self.holds("M4", MOD, q, cons4, fn, "upper, lower and baseline evaluations are the same call up to the perturbed value")
+        else:
+            self.violated("M4", MOD, q, cons4, fn, verdicts["same"][0],
+                          witness="scaled coefficients are divided by an evaluation at another state / time / start state")
+
+    @staticmethod
+    def _key(inner: str, old: str) -> str:
+        """the dict key under which the perturbed value is merged into the state (`variables | {KEY: old * (1 + d)}`)"""
+        import re
+
+        m = re.search(r"\| \{([^{}:]+): " + re.escape(old) + r" \* \(1 [+-] displacement\)\}", inner)
+        return m.group(1) if m else "?"
 
     def m4(self, mod) -> None:
-        # response coefficients: three steady-state evaluations
-        w = mod.func("_response_coefficient_worker")
-        calls = [c for c in walk_no_nested(w) if isinstance(c, ast.Call) and norm(c.func).endswith("_steady_state_worker")]
-        if len(calls) < 3:
-            raise AnalysisError("_response_coefficient_worker: upper / lower / normalisation steady-state runs not found")
-        sigs = [(tuple(norm(a) for a in c.args), tuple(sorted((k.arg, norm(k.value)) for k in c.keywords))) for c in calls]
-        if len(set(sigs)) == 1:
-            self.holds("M4", MOD, w.name, "same-evaluation-for-upper-lower-baseline", calls[0], f"{len(calls)} steady-state runs with identical arguments {dict(sigs[0][1])}")
-        else:
-            diff = [i for i, sg in enumerate(sigs) if sg != sigs[0]]
-            self.violated("M4", MOD, w.name, "same-evaluation-for-upper-lower-baseline", calls[diff[0]],
-                          f"steady-state run #{diff[0] + 1} is called with {dict(sigs[diff[0]][1])} but run #1 with {dict(sigs[0][1])}: numerator and scaling "
-                          "reference are computed from different start states",
-                          witness="response_coefficients(m, variables={...}, normalized=True) on a network with a conserved moiety: scaled coefficients are off by a constant factor")
-        for name, target in (("variable_elasticities", "variables"), ("parameter_elasticities", "variables")):
-            fn = mod.func(name)
-            calls = [c for c in walk_no_nested(fn) if isinstance(c, ast.Call) and norm(c.func) == "model.get_fluxes"]
-            if len(calls) < 3:
-                self.violated("M4", MOD, name, "same-evaluation-for-upper-lower-baseline", fn,
-                              f"only {len(calls)} flux evaluation(s): the scaled coefficient has no evaluation at the unperturbed state to refer to",
-                              witness="scaled elasticities are divided by a perturbed flux")
-                continue
-            times = {dict((k.arg, norm(k.value)) for k in c.keywords).get("time") for c in calls}
-            states = [dict((k.arg, norm(k.value)) for k in c.keywords).get("variables") for c in calls]
-            base_states = {s.split(" | ")[0] for s in states if s}
-            if times == {"time"} and base_states == {"variables"}:
-                self.holds("M4", MOD, name, "same-evaluation-for-upper-lower-baseline", calls[0], "all flux evaluations use the same time and the same base state")
-            else:
-                self.violated("M4", MOD, name, "same-evaluation-for-upper-lower-baseline", calls[0], f"flux evaluations differ in time {times} / base state {base_states}",
-                              witness="elasticities at a user-supplied state or time are scaled by the flux at another state")
+        """(decided inside m2: the evaluations of one coefficient are compared there)"""
 
     def m3(self, mod) -> None:
         fn = mod.func("response_coefficients")
